@@ -7,7 +7,7 @@ CFG = dict(
          "the 4096-byte writer buffer at varying alignments; 4% of the cases: 150..450 ops, mostly blocks with dropped frames) external-trigger row counts (increasing, with extreme values 0, -1, +-2^62) and a dropped-frame "
          "count (0, 1..99999999, negative) at first frames 0 .. 2^40; ~24% state labels through the real SourceControl.SetExperimentStateLabel "
          "(WaitForError), as 'UNPAUSE label', or (45% of them) through the exported AnySource.SetExperimentStateLabel with a caller-chosen time "
-         "stamp that is earlier than / equal to / later than the previous one and than the clock-stamped lines (2001, 2096, 0, 1) (labels incl. spaces, commas, '#', the words START/STOP/PAUSE, empty, and 5% containing \\n / \\r); "
+         "stamp that is earlier than / equal to / later than the previous one and than the clock-stamped lines (2001, 2096, 0, 1) (labels incl. spaces, commas, '#', the words START/STOP/PAUSE, empty, 5% containing \\n / \\r, 35% with printf verbs / trailing % / backslashes / quotes / tabs / NUL / UTF-8 / invalid UTF-8, 4% of 4-9 kB); "
          "~30% START (valid / no file type) / STOP / PAUSE / UNPAUSE / junk through the real SourceControl.WriteControl, 0..40% of them illegal in "
          "the current state (STOP while stopped, START while active, labels while inactive). Whenever a STOP ends a run the three files of that "
          "run directory are read back from disk (int64 counts after the header line; '%d %d' lines; '<digits>, <label>' lines) together with the "
